@@ -7,6 +7,8 @@ use std::time::{Duration, Instant};
 use tokio::net::UdpSocket;
 
 const MAX_UDP: usize = 1350;
+/// longest burst of consecutive datagrams the loss injection discards
+const MAX_LOSS_BURST: u64 = 100;
 
 #[derive(Default, Debug, Clone)]
 pub struct H3Stream {
@@ -137,9 +139,12 @@ impl H3 {
         flush(&self.socket, &mut self.conn);
         let wait = self.conn.timeout().unwrap_or(max_wait).min(max_wait);
         if tokio::time::timeout(wait, self.socket.readable()).await.is_err() { self.conn.on_timeout(); }
-        if self.drop_incoming_until.map(|t| Instant::now() < t).unwrap_or(false) {
+        if self.drop_incoming_until.map(|t| Instant::now() < t).unwrap_or(false) && self.dropped_datagrams < MAX_LOSS_BURST {
+            // (at most MAX_LOSS_BURST datagrams: quiche 0.24 (both ends here) encodes a packet number in one byte while fewer than 256
+            // packets are unacknowledged, which its own receiver mis-decodes once more than 128 in a row were lost -
+            // a longer burst would test the QUIC library, not the endpoint)
             let mut buf = [0u8; 65536];
-            while self.socket.try_recv_from(&mut buf).is_ok() { self.dropped_datagrams += 1; }
+            while self.dropped_datagrams < MAX_LOSS_BURST && self.socket.try_recv_from(&mut buf).is_ok() { self.dropped_datagrams += 1; }
         } else {
             read_out(&self.socket, self.local, &mut self.conn);
         }
